@@ -2,10 +2,10 @@ SPECIFICATION GenSpec
 CONSTANTS
   W = 64
   PaletteName = "edge"
-  MaxSteps = 14
+  MaxSteps = 20
   Variant = "ok"
   Record = TRUE
   AddAtUnset = "avoid"
-INVARIANT TypeOK Algebra Emit
+INVARIANT TypeOK Algebra
 PROPERTY RebasePreserves SetReadsBack RapNotAfterCr
 CHECK_DEADLOCK FALSE
